@@ -165,6 +165,8 @@ TreeFeatures(n) ==
     \cup (IF \E p \in Lits(n) : p[2] = "esc" /\ p[1] = 36 THEN {"esc_dollar"} ELSE {})
     \* a literal backslash written \\ (in front of a letter it looks like a class shorthand to a careless re-writer)
     \cup (IF \E p \in Lits(n) : p[2] = "esc" /\ p[1] = 92 THEN {"lit_bs"} ELSE {})
+    \* the control character DEL (U+007F) is mentioned (re-writers tend to print it as an escape)
+    \cup (IF \E p \in Lits(n) \cup SetItems(n) : p[1] = 127 THEN {"del_char"} ELSE {})
 
 ---------------------------------------------------------------------------
 (* The lexical grammar of an XSD pattern (XML Schema Part 2, F: SingleCharEsc, MultiCharEsc,    *)
